@@ -869,6 +869,17 @@ def transformed_function(relpath: str, qual: str, while_specs=(), extra_havoc=No
 
     node = copy.deepcopy(node)
     pre_failed = []
+    # the decorators are dropped from the verified text.  A memoising one changes what a call returns (the result of
+    # an earlier call with equal arguments) unless equal arguments are indistinguishable: str / bytes parameters only
+    for d in node.decorator_list:
+        text = ast.unparse(d)
+        if "cache" in text.split("(")[0]:
+            params = node.args.posonlyargs + node.args.args + node.args.kwonlyargs
+            plain = params and not node.args.vararg and not node.args.kwarg and all(
+                a.annotation is not None and ast.unparse(a.annotation) in ("str", "bytes") for a in params)
+            if not plain:
+                pre_failed.append(f"@{text}: memoised on arguments whose equality does not determine the result "
+                                  "(only str / bytes parameters are read through the cache)")
     if f"{relpath}::{qual}" in COMP_AS_LOOP:
         pre = _CompToLoop(node)
         node = pre.visit(node)
